@@ -2,6 +2,7 @@ package real
 
 import (
 	"fmt"
+	"io"
 	"strconv"
 	"strings"
 	"time"
@@ -25,6 +26,7 @@ type Interp struct {
 	R    *Runner
 	Home string // scratch home directory for the application
 	Last Outcome
+	Log  io.Writer // optional: receives one diagnostic line (with the ABCI log) per TX / CHECK
 
 	gen   script.Genesis
 	ph    phase
@@ -115,6 +117,9 @@ func (ip *Interp) Exec(line string) ([]string, error) {
 			return nil, err
 		}
 		ip.Last = o
+		if ip.Log != nil {
+			fmt.Fprintf(ip.Log, "%s %d %s %s:%d %s :: %s\n", toks[0], t.N, o.Class, o.Codespace, o.Code, strings.ReplaceAll(o.Log, "\n", " "), strings.Join(toks[7:], " "))
+		}
 		return o.TraceLines(hard, soft, t.N), nil
 	case "GOVEXEC":
 		if err := want(phBlock, -1); err != nil {
